@@ -852,28 +852,39 @@ class CounterGather:
             # too high to ever match => exit
             return []
 
-        # Find the best match using the internal Counter.
-        most_common = counter.most_common()
-        dataset_id, match_size = most_common[0]
+        # Find the best match using the internal Counter.  Counters taken at
+        # a finer 'scaled' than the current one can only over-estimate the
+        # overlap, so: take the largest, recompute it at the current
+        # resolution, and accept it only if it did not shrink (lazy refresh).
+        while True:
+            most_common = counter.most_common()
+            if not most_common:
+                return []
+            dataset_id, match_size = most_common[0]
 
-        # below threshold? no match!
-        if match_size < n_threshold_hashes:
-            return []
+            # below threshold? no match!
+            if match_size < n_threshold_hashes:
+                return []
+
+            # pull match; calculate intersection of this "best match" with query.
+            match = siglist[dataset_id]
+            match_mh = match.minhash.downsample(scaled=scaled).flatten()
+            intersect_mh = cur_query_mh & match_mh
+            if len(intersect_mh) == match_size:
+                break
+
+            # stale counter: refresh (or drop) it and look again.
+            if intersect_mh:
+                counter[dataset_id] = len(intersect_mh)
+            else:
+                del counter[dataset_id]
 
         ## at this point, we have a legitimate match above threshold!
 
-        # pull match and location.
-        match = siglist[dataset_id]
-
         # calculate containment
-        # CTB: this check is probably redundant with intersect_mh calc, below.
         cont = cur_query_mh.contained_by(match.minhash, downsample=True)
         assert cont
         assert cont >= threshold
-
-        # calculate intersection of this "best match" with query.
-        match_mh = match.minhash.downsample(scaled=scaled).flatten()
-        intersect_mh = cur_query_mh & match_mh
         location = self.locations[dataset_id]
 
         # build result & return intersection
